@@ -66,7 +66,7 @@ def gen_set(rnd, n):
         cat, sub = rnd.choice(R.CATS)
         r = R.Rule(name='S%d' % i, match=cond(rnd), category='Cat%d' % i, subcategory=('Sub%d' % i) if rnd.random() < .55 else '')
         if rnd.random() < .25:
-            r.priority = rnd.choice([0, 49, 50, 51, 90])
+            r.priority = rnd.choice([0, 49, 50, 51, 90, -10, -60])
         if rnd.random() < .3:
             r.tags = [rnd.choice(['a', 'B', 'c d'])]
         if rnd.random() < .12:
@@ -182,7 +182,7 @@ def dominance_pair(rnd, basic=False):
     if level == 'priority' and rnd.random() < .4:
         # an explicit `priority: 0` (or a negative one) DEMOTES a rule below every rule that states none (50)
         hi = R.Rule('HI', 'contains("%s")' % w[:2], 'Hi', 'HiSub')
-        lo = R.Rule('LO', 'contains("%s") and contains("%s") and regex("%s") and amount > -1e12 and month >= 0 and year >= 0' % (w, w, w), 'Lo', 'LoSub', priority=rnd.choice([0, 0, -5, 1]))
+        lo = R.Rule('LO', 'contains("%s") and contains("%s") and regex("%s") and amount > -1e12 and month >= 0 and year >= 0' % (w, w, w), 'Lo', 'LoSub', priority=rnd.choice([0, -5, -100, -1, 1]))
         rules = [hi, lo]
         rnd.shuffle(rules)
         return R.RuleFile(variables=list(PREAMBLE), rules=rules), 'priority-demoted', w
